@@ -7,7 +7,7 @@ ENGINE = {'name': 'send',
  'check': 'check',
  'imports': ['From L4.model Require Import GoBase ProxyProto.'],
  'n_quick': 40,
- 'n_thorough': 600,
+ 'n_thorough': 300,
  'timeout': 600,
  'shard': 60,
  'serves': ['C12'],
